@@ -626,5 +626,174 @@ theorem text_equity_reloads (cfg : Time.TsCfg) (hcfg : C06.CfgOK cfg) (st st' : 
   · obtain ⟨ts', s2, hl, _, rfl, _⟩ := hre hne cfg' _ (ofConfig_lax accts comms tags)
     exact ⟨s2, hl⟩
 
+/-! ## 6. non-vacuity: the hypotheses of the theorems of this file on concrete texts (`E2E.Ex`: `sample`, `fileA`, `fileB`) -/
+namespace Ex
+open Tackler.Price Tackler.Priced
+
+/-! ### git storage: a commit with two journal files under `txns/`, a near-miss and a file elsewhere -/
+
+def blob (oid : String) : List Char :=
+  match oid.toList with
+  | ['A'] => fileA
+  | ['B'] => fileB
+  | _ => "not a journal".toList
+
+def tree : List Entry := [⟨.tree, "txns", "t"⟩, ⟨.blob, "txns/a.txn", "A"⟩, ⟨.blobExe, "txns/b.txn", "B"⟩,
+  ⟨.blob, "txns/readme.txt", "R"⟩, ⟨.blob, "txnsold/c.txn", "C"⟩, ⟨.blob, "other/d.txn", "D"⟩]
+
+theorem tree_selects : gitSelect "txns" "txn" tree = .ok [⟨.blob, "txns/a.txn", "A"⟩, ⟨.blobExe, "txns/b.txn", "B"⟩] := by
+  decide
+
+theorem tree_blobs : ([⟨.blob, "txns/a.txn", "A"⟩, ⟨.blobExe, "txns/b.txn", "B"⟩] : List Entry).map (fun e => blob e.oid)
+    = [fileA, fileB] := by decide
+
+/-- the git load of the commit succeeds (the near-miss `txnsold/c.txn`, `readme.txt` and `other/d.txn` are not
+    journals and would fail it, were they selected) … -/
+theorem tree_loads : ∃ ts st', gitLoad (gitText utc blob) "txns" "txn" lax0 tree = .ok (ts, st') := by
+  obtain ⟨ts, st', h⟩ := files_load
+  exact ⟨ts, st', (git_load_iff utc blob "txns" "txn" lax0 st' tree ts).mpr ⟨_, tree_selects, by rw [tree_blobs]; exact h⟩⟩
+
+/-- … establishes `Loaded`, and its transactions are balanced (`git_accept_balanced`) -/
+example : ∃ ts st', gitLoad (gitText utc blob) "txns" "txn" lax0 tree = .ok (ts, st') ∧ Loaded lax0 ts st' ∧
+    ∀ t ∈ ts, C01.Balanced t := by
+  obtain ⟨ts, st', h⟩ := tree_loads
+  exact ⟨ts, st', h, loaded_of_git utc blob "txns" "txn" lax0 st' tree ts h,
+    git_accept_balanced utc blob "txns" "txn" lax0 st' tree ts h⟩
+
+/-! ### strict mode from text -/
+
+def chart : List Path := [["a", "b"], ["a", "bc"], ["e"], ["f"]]
+
+/-- lax mode with a chart loads the sample to the same transactions as without (`text_lax_chart_free`) -/
+theorem sample_loads_chart : ∃ s2, loadText utc (Settings.ofConfig false false true chart [] []) sample = .ok ([t1, t2], s2) := by
+  have h := text_lax_chart_free utc false true chart [] [] [] [] [] sample
+  have h0 : loadText utc (Settings.ofConfig false false true [] [] []) sample = .ok ([t1, t2], stAfter) := sample_loads
+  rw [h0] at h
+  cases hl : loadText utc (Settings.ofConfig false false true chart [] []) sample with
+  | ok r => rw [hl] at h; obtain ⟨ts, s2⟩ := r; simp only [Outcome.map, Outcome.ok.injEq] at h; exact ⟨s2, by rw [h]⟩
+  | err => rw [hl] at h; cases h
+  | undef => rw [hl] at h; cases h
+
+/-- every account the sample uses is declared in `chart` (no commodity, no tag is used): strict mode loads it … -/
+example : ∃ s2, loadText utc (Settings.ofConfig true false true chart [] []) sample = .ok ([t1, t2], s2) :=
+  (text_strict_iff utc false true chart [] [] sample [r1, r2] sample_parses [t1, t2]).mpr
+    ⟨⟨by decide, by decide, by decide⟩, sample_loads_chart⟩
+
+/-- … and without `f` in the chart it does not, although lax mode does (`text_strict_iff_of_lax`) -/
+example : ¬ ∃ ts' s2, loadText utc (Settings.ofConfig true false true [["a", "b"], ["a", "bc"], ["e"]] [] []) sample = .ok (ts', s2) := by
+  have h := text_lax_chart_free utc false true [["a", "b"], ["a", "bc"], ["e"]] [] [] [] [] [] sample
+  have h0 : loadText utc (Settings.ofConfig false false true [] [] []) sample = .ok ([t1, t2], stAfter) := sample_loads
+  rw [h0] at h
+  cases hl : loadText utc (Settings.ofConfig false false true [["a", "b"], ["a", "bc"], ["e"]] [] []) sample with
+  | ok r =>
+    obtain ⟨ts, s2⟩ := r
+    intro hs
+    have hd := ((text_strict_iff_of_lax utc false true _ [] [] sample [r1, r2] sample_parses ts s2 hl).1.mp hs).1
+    exact absurd (hd ["f"] (by decide)) (by decide)
+  | err => rw [hl] at h; cases h
+  | undef => rw [hl] at h; cases h
+
+/-! ### filters -/
+
+/-- the filter "code is `c2`" keeps the second transaction of the sample, its negation the first -/
+example : filterTxns C05.mEq (.code "c2") [t1, t2] = [t2] ∧ filterTxns C05.mEq (.not (.code "c2")) [t1, t2] = [t1] := by
+  decide
+
+example : (filterTxns C05.mEq (.code "c2") [t1, t2] ++ filterTxns C05.mEq (.not (.code "c2")) [t1, t2]).Perm [t1, t2] :=
+  (text_filter_partition utc lax0 stAfter sample [t1, t2] sample_loads C05.mEq (.code "c2")).2.2.1
+
+
+/-! ### the equity export of the sample, as text -/
+
+def eq1 : EqTxn := ⟨⟨1704153600000000000, 0⟩, "Equity", [],
+  [⟨["a", "b"], ⟨false, 150, 2⟩, ""⟩, ⟨["f"], ⟨true, 35, 1⟩, ""⟩, ⟨["Equity"], ⟨false, 200, 2⟩, ""⟩]⟩
+
+def eqText : String := "2024-01-02T00:00:00+00:00 'Equity\n   a:b  1.50\n   f  -3.5\n   Equity  2.00\n\n"
+
+set_option maxRecDepth 20000 in
+/-- the exact text of the export of `sample_equity` -/
+theorem sample_equity_text : equityText [eq1] = some eqText := by decide
+
+theorem acctLex_Equity : AcctLex ["Equity"] :=
+  ⟨["Equity".toList], ⟨"Equity".toList, [], rfl, ⟨'E', "quity".toList, by decide, by decide, by decide⟩,
+    fun _ h => by cases h⟩, by decide, by decide⟩
+
+/-- `text_equity_text` on it: the export text re-loads from fresh lax settings to the generated transaction … -/
+theorem sample_equity_reloads : ∃ s2, loadText utc lax0 eqText.toList = .ok (sortTxns [C10.toTxn eq1], s2) := by
+  obtain ⟨s, hs, _, hre⟩ := text_equity_text utc C06.cfgOK_utc lax0 stAfter sample [t1, t2] sample_loads [t1, t2]
+    (sel_all _) stAfter eqSel ["Equity"] [] [eq1] sample_equity acctLex_Equity (fun _ h => by cases h)
+  rw [sample_equity_text] at hs
+  have e := Option.some.inj hs
+  subst e
+  obtain ⟨ts', s2, hl, _, rfl, _⟩ := hre (by simp) utc lax0 (ofConfig_lax [] [] [])
+  exact ⟨s2, hl⟩
+
+set_option maxRecDepth 40000 in
+/-- … which the grammar confirms by evaluation (independent of the theorem) -/
+example : parseJournal utc eqText.toList = some [eq1.toRaw] := by decide
+
+
+/-- `text_equity_reloads` on it: the export text is accepted from the settings the first load left behind and from
+    fresh settings of a lax configuration with a chart -/
+example : ∃ s, equityText [eq1] = some s ∧
+    (∃ s2, loadText utc stAfter s.toList = .ok (sortTxns [C10.toTxn eq1], s2)) ∧
+    (∃ s2, loadText utc (Settings.ofConfig false false true chart ["EUR"] []) s.toList = .ok (sortTxns [C10.toTxn eq1], s2)) :=
+  text_equity_reloads utc C06.cfgOK_utc lax0 stAfter sample [t1, t2] sample_loads (ofConfig_lax [] [] []) [t1, t2]
+    (sel_all _) stAfter eqSel ["Equity"] [] [eq1] sample_equity (by simp) acctLex_Equity (fun _ h => by cases h)
+    utc chart ["EUR"] []
+
+/-! ### price conversion on a loaded text: `a 2 USD`, `b` (implicit −2 USD), price file `USD → EUR` at 3 -/
+
+def usdText : List Char := "2024-01-01 'fx\n a 2 USD\n b\n".toList
+def hU : Header := ⟨⟨1704067200000000000, 0⟩, none, some "fx", none, none, none, none⟩
+def tU : Txn := ⟨hU, [⟨["a"], "USD", ⟨false, 2, 0⟩, ⟨false, 2, 0⟩, false, "USD", none⟩,
+  ⟨["b"], "USD", ⟨true, 2, 0⟩, ⟨true, 2, 0⟩, false, "USD", none⟩]⟩
+def stU : Settings := ⟨false, false, true, [["a"], ["b"]], [], ["USD"], []⟩
+def esU : List PriceEntry := [⟨1, "USD", Dec.ofInt 3, "EUR"⟩]
+
+set_option maxRecDepth 40000 in
+theorem usd_loads : loadText utc lax0 usdText = .ok ([tU], stU) := by
+  have h : acceptText utc lax0 usdText = .ok ([tU], stU) := by decide
+  rw [load_of_acceptText utc lax0 stU usdText [tU] h]
+  unfold sortTxns
+  rw [List.mergeSort_of_pairwise (by decide)]
+
+theorem usd_db : loadDb esU = esU := by
+  simp [loadDb, esU, dedup, dedupFrom]
+
+theorem usd_used : usedCommodities [tU] "EUR" = ["USD"] := by
+  simp [usedCommodities, tU, btreeSet, List.mergeSort, List.eraseDups]
+  decide
+
+theorem usd_ctx : reportCtx .lastPrice (some "EUR") (loadDb esU) [tU] = ⟨.fixed [("USD", (1, Dec.ofInt 3))], some "EUR"⟩ := by
+  have hc : fixedCache ["USD"] "EUR" none esU = [("USD", (1, Dec.ofInt 3))] := by decide
+  simp only [reportCtx, makeCtx, usd_db, usd_used, hc]
+
+def balU : Balance := ⟨[⟨["a"], "EUR", ⟨false, 6, 0⟩, ⟨false, 6, 0⟩⟩, ⟨["b"], "EUR", ⟨true, 6, 0⟩, ⟨true, 6, 0⟩⟩],
+  [("EUR", ⟨false, 0, 0⟩)]⟩
+
+/-- the converted balance of the loaded text is inside the exact domain: 2 USD × 3 = 6 EUR -/
+theorem usd_balanceConv : balanceConv stU (fun _ => true) .lastPrice (some "EUR") (loadDb esU) [tU] = .ok balU := by
+  have hcv : convertedPosts ⟨.fixed [("USD", (1, Dec.ofInt 3))], some "EUR"⟩ [tU]
+      = .ok [⟨["a"], "EUR", ⟨false, 6, 0⟩⟩, ⟨["b"], "EUR", ⟨true, 6, 0⟩⟩] := by decide
+  unfold balanceConv balanceOfConv
+  rw [usd_ctx, hcv]
+  simp only [Outcome.bind]
+  exact C13.fromIter_eval stU (fun _ => true) _
+    [(("EUR", ["a"]), ⟨false, 6, 0⟩), (("EUR", ["b"]), ⟨true, 6, 0⟩)]
+    [(("EUR", ["a"]), ⟨false, 6, 0⟩), (("EUR", ["b"]), ⟨true, 6, 0⟩)]
+    balU.rows balU.deltas (by decide) (by decide) (by decide) (by decide) (by decide) (by decide)
+
+/-- `text_priced_balance` on it: the row of `a` shows 6 EUR = 2 × 3, the rate `RateAt` names for USD → EUR -/
+example : ∀ row ∈ balU.rows, row.own.units * C07b.E28 =
+    C07b.ratedSum (C07b.rcache .lastPrice "EUR" (loadDb esU) [tU]) "EUR" (C07b.pairsOf [tU]) row.key
+      + C07b.plainSum (C07b.rcache .lastPrice "EUR" (loadDb esU) [tU]) "EUR" (C07b.pairsOf [tU]) row.key * C07b.E28 := by
+  obtain ⟨⟨cps, _, _, _, hrows⟩, _, _⟩ := text_priced_balance utc lax0 stU usdText [tU] usd_loads [tU] (sel_all _) stU
+    (fun _ => true) esU "EUR" .lastPrice (by simp) balU usd_balanceConv
+  exact fun row hrow => (hrows row hrow).2.2.1
+
+
+end Ex
+
 end E2E
 end Tackler
